@@ -176,9 +176,15 @@ def generate(seed, tier):
             sep = by.find(b':', pos + ln, eol if eol >= 0 else n)
             if sep >= 0:
                 fault_sets.append([st, ['overwrite', sep + total - ln, '20']])
+        # --- seeded: a record ending at a stored value inside it, a stored value replaced by a boundary value
+        if any(f[2].startswith('val') for f in fields):
+            for _ in range(10):
+                fault_sets.append([damage.gen_fault(rng, n, fields, kinds=['shorten_record'])])
+            for _ in range(6):
+                fault_sets.append([damage.gen_fault(rng, n, fields, kinds=['value_damage'])])
         # --- seeded other kinds, sometimes two at once
         for _ in range(24):
-            fs = [damage.gen_fault(rng, n, fields, kinds=['zero_block', 'overwrite', 'dup_block', 'swap_blocks', 'append', 'empty', 'foreign', 'header_damage', 'value_damage'])]
+            fs = [damage.gen_fault(rng, n, fields, kinds=['zero_block', 'overwrite', 'dup_block', 'swap_blocks', 'append', 'empty', 'foreign', 'header_damage', 'value_damage', 'shorten_record', 'shorten_record'])]
             if rng.chance(0.2):
                 fs.append(damage.gen_fault(rng, n, fields, kinds=['truncate', 'bitflip', 'zero_block']))
             fault_sets.append(fs)
